@@ -149,6 +149,9 @@ func (g *G) genBody(f *am.Fun) {
 			if s.kind == "condbr" && len(s.succs) < 2 {
 				s.kind = "br"
 			}
+			if len(s.succs) == 0 {
+				s.kind = "unreachable"
+			}
 		}
 	}
 	for i, s := range st.sk {
